@@ -573,11 +573,22 @@ def meta_tag_sites(prog, w):
     private helper that passes that argument on to write_dict_tags"""
     helpers = _tag_helpers(prog)
     out = []
+
+    def is_meta(op):
+        r = repr(G.describe(w, op))
+        if ".meta" in r:
+            return True
+        # the payload of a local that holds (a view of) the meta: `meta.as_ref()` handed to a spliced helper
+        m = re.fullmatch(r"_(\d+)( as Some\.0|\*)*", r)
+        if m:
+            return ".meta" in repr(G.describe_place(w, {"l": int(m.group(1)), "p": []}))
+        return False
+
     for bi, t in w.calls():
         c = callee_of(t)
         nm = strip_generics(mir.callee_name(t) or "")
         if nm.endswith("encode::write_dict_tags"):
-            if len(t["args"]) > 1 and ".meta" in repr(G.describe(w, t["args"][1])):
+            if len(t["args"]) > 1 and is_meta(t["args"][1]):
                 out.append(bi)
         elif c is not None:
             for hid, pidx in helpers.items():
